@@ -328,7 +328,7 @@ template <typename T>
 void containers_vec()
 {
   unsigned const n{static_cast<unsigned>(verif_param("n"))};
-  mopt<T> ms[3]{msym<T>("h0", "v0"), msym<T>("h1", "v1"), msym<T>("h2", "v2")};
+  mopt<T> ms[4]{msym<T>("h0", "v0"), msym<T>("h1", "v1"), msym<T>("h2", "v2"), msym<T>("h3", "v3")};
   std::vector<opt::object<T>> src;
   for (unsigned i = 0; i < n; ++i) src.push_back(real(ms[i]));
   containers<T>(src, ms, n);
@@ -362,6 +362,7 @@ H(h_opt_sel_int, selectors<int>()) H(h_opt_sel_short, selectors<short>()) H(h_op
 //@harness h_opt_sel_{T} for T in int,short,uc tier=quick
 H(h_opt_cont_vec_int, containers_vec<int>()) H(h_opt_cont_vec_short, containers_vec<short>()) H(h_opt_cont_vec_uc, containers_vec<uc>())
 //@harness h_opt_cont_vec_{T} for T in int,short,uc param n=0..3 tier=quick
+//@harness h_opt_cont_vec_{T} for T in int,short,uc param n=4 tier=thorough
 H(h_opt_cont_arr_int_1, (containers_arr<int, 1>())) H(h_opt_cont_arr_int_3, (containers_arr<int, 3>())) H(h_opt_cont_arr_uc_2, (containers_arr<uc, 2>()))
 //@harness h_opt_cont_arr_int_1 tier=quick
 //@harness h_opt_cont_arr_int_3 tier=quick
